@@ -514,7 +514,9 @@ func c16GoAPI(c *run.Ctx) {
 		return o
 	}
 	defs := []struct{ name, field, typ string }{{"Query", "a", "Int"}, {"Mutation", "b", "Thing"}, {"Subscription", "s", "Thing"}, {"Thing", "x", "Int"}}
-	sdlOf := func(i int) string { return fmt.Sprintf("type %s {\n  %s: %s\n}\n", defs[i].name, defs[i].field, defs[i].typ) }
+	sdlOf := func(i int) string {
+		return fmt.Sprintf("type %s {\n  %s: %s\n}\n", defs[i].name, defs[i].field, defs[i].typ)
+	}
 	all := ""
 	for i := range defs {
 		all += sdlOf(i)
